@@ -400,7 +400,8 @@ type srvCase struct {
 	schemas []fsch
 	scen    string // sess norms normr
 	body    []srvStmt
-	desired []fsch // norms: one entry (id ignored); normr: the realm
+	body2   []srvStmt // twice: the script of the second session on the same driver
+	desired []fsch    // norms: one entry (id ignored); normr: the realm
 	faults  []int
 	label   string
 }
@@ -423,10 +424,16 @@ func (c *srvCase) line() string {
 	wr(c.schemas)
 	fmt.Fprintf(&b, " %s", c.scen)
 	switch c.scen {
-	case "sess":
+	case "sess", "twice":
 		fmt.Fprintf(&b, " %d", len(c.body))
 		for _, s := range c.body {
 			fmt.Fprintf(&b, " %s %d %d", s.op, s.s, s.t)
+		}
+		if c.scen == "twice" {
+			fmt.Fprintf(&b, " %d", len(c.body2))
+			for _, s := range c.body2 {
+				fmt.Fprintf(&b, " %s %d %d", s.op, s.s, s.t)
+			}
 		}
 	default:
 		fmt.Fprintf(&b, " %d", len(c.desired))
@@ -481,6 +488,10 @@ type srvResult struct {
 	obs     string
 	outcome string
 	rerr    bool
+	out2    string
+	rerr2   bool
+	mid     string // twice: the catalogue between the two sessions
+	trace2  int    // twice: statements executed by the second session
 	calls   int
 	final   string
 	start   string
@@ -544,26 +555,40 @@ func runSrv(c *srvCase) (r srvResult) {
 	fs.armed = true
 	ctx := context.Background()
 	var nc *migrate.NotCleanError
-	switch c.scen {
-	case "sess":
+	sess := func(body []srvStmt) (outcome string, rerr bool) {
 		restore, err := drv.Snapshot(ctx)
 		switch {
 		case errors.As(err, &nc):
-			r.outcome = "refused"
+			return "refused", false
 		case err != nil:
-			r.outcome, r.output = "snaperr", err.Error()
-		default:
-			r.outcome = "ok"
-			for k, s := range c.body {
-				if _, err := drv.ExecContext(ctx, c.stmtSQL(s)); err != nil {
-					r.outcome = fmt.Sprintf("fail:%d", k)
-					break
-				}
-			}
-			if err := restore(ctx); err != nil {
-				r.rerr, r.output = true, err.Error()
+			r.output = err.Error()
+			return "snaperr", false
+		}
+		outcome = "ok"
+		for k, s := range body {
+			if _, err := drv.ExecContext(ctx, c.stmtSQL(s)); err != nil {
+				outcome = fmt.Sprintf("fail:%d", k)
+				break
 			}
 		}
+		if err := restore(ctx); err != nil {
+			rerr, r.output = true, err.Error()
+		}
+		return
+	}
+	switch c.scen {
+	case "sess":
+		r.outcome, r.rerr = sess(c.body)
+	case "twice":
+		r.outcome, r.rerr = sess(c.body)
+		fs.mu.Lock()
+		r.mid = fs.final()
+		n1 := len(fs.trace)
+		fs.mu.Unlock()
+		r.out2, r.rerr2 = sess(c.body2)
+		fs.mu.Lock()
+		r.trace2 = len(fs.trace) - n1
+		fs.mu.Unlock()
 	case "norms", "normr":
 		var err error
 		if c.scen == "norms" {
@@ -604,6 +629,9 @@ func runSrv(c *srvCase) (r srvResult) {
 		tr = "-"
 	}
 	r.obs = fmt.Sprintf("out=%s rerr=%d calls=%d trace=%s final=%s", r.outcome, b01(r.rerr), r.calls, tr, r.final)
+	if c.scen == "twice" {
+		r.obs += fmt.Sprintf(" out2=%s rerr2=%d", r.out2, b01(r.rerr2))
+	}
 	return
 }
 
@@ -690,12 +718,49 @@ func schemaPart(final string, id int) string {
 	return ""
 }
 
+func parseCatalogue(t string) []fsch {
+	var l []fsch
+	if t == "-" {
+		return nil
+	}
+	for _, p := range strings.Split(t, ";") {
+		kv := strings.SplitN(p, ":", 2)
+		var s fsch
+		fmt.Sscanf(kv[0], "%d", &s.id)
+		if len(kv) > 1 && kv[1] != "" {
+			for _, x := range strings.Split(kv[1], ",") {
+				var k int
+				fmt.Sscanf(x, "%d", &k)
+				s.tabs = append(s.tabs, k)
+			}
+		}
+		l = append(l, s)
+	}
+	return l
+}
+
 func srvOracle(w *out.W, c *srvCase, r *srvResult) {
 	d := "mysql"
 	if c.pg {
 		d = "pg"
 	}
 	ctxt := fmt.Sprintf("%s bound=%d start=%s scen=%s faults=%v outcome=%s rerr=%v trace=%s final=%s", d, c.bound, r.start, c.scen, c.faults, r.outcome, r.rerr, strings.Join(r.trace, ","), r.final)
+	if c.scen == "twice" {
+		// the state a (failed) RestoreFunc leaves is judged anew by the next Snapshot: content the
+		// connection owns => the second session is declined and executes nothing
+		mid := *c
+		mid.schemas = parseCatalogue(r.mid)
+		if userContent(&mid) {
+			w.Count("twice/leftover-then-" + r.out2)
+		}
+		if userContent(&mid) && (r.trace2 > 0 || r.final != r.mid || !(r.out2 == "refused" || r.out2 == "snaperr")) {
+			w.Violation(c.id, "nonempty-dev-damaged", "server-after-restore "+ctxt+fmt.Sprintf(" mid=%s out2=%s: the first session left content and the second one ran on it", r.mid, r.out2))
+		}
+		if !userContent(&mid) && r.out2 == "refused" {
+			w.Violation(c.id, "clean-dev-refused", "server-after-restore "+ctxt+fmt.Sprintf(" mid=%s out2=%s", r.mid, r.out2))
+		}
+		return
+	}
 	declined := r.outcome == "refused" || r.outcome == "snaperr"
 	// how the final catalogue differs from the start, seen from a connection bound to a schema:
 	// its own schema is as it was and the difference lies in other schemas / its schema is gone
@@ -778,6 +843,18 @@ func genSrv(pg bool, tier string) []*srvCase {
 			}
 			for _, d := range desiredR {
 				bases = append(bases, &srvCase{bound: b, schemas: cat, scen: "normr", desired: d, label: "normr"})
+			}
+		}
+	}
+	// two sessions on the same driver (goal 2): whatever the first one's RestoreFunc left -- a fault is
+	// put at every call, the restore's included -- the second Snapshot decides anew
+	for _, cat := range cats {
+		if len(cat) == 2 && len(cat[0].tabs)+len(cat[1].tabs) > 0 {
+			continue
+		}
+		for _, b := range bounds {
+			for _, body := range [][]srvStmt{bodies[1], bodies[2], bodies[3], bodies[7]} {
+				bases = append(bases, &srvCase{bound: b, schemas: cat, scen: "twice", body: body, body2: []srvStmt{{"ct", ids[0], 7}}, label: "twice"})
 			}
 		}
 	}
